@@ -825,7 +825,17 @@ impl<'r> Builder<'r> {
 
     fn gen_tx(&mut self) {
         self.cur = TxMeta::default();
-        self.cur_tx = TxDef { name: self.name("tx"), ..Default::default() };
+        // now and then a tx is named like the previous one except for the case of its letters (tx names are
+        // case-sensitive keys of the interface)
+        let prev_name: Option<String> = self.g.prog.txs.last().map(|t| t.name.clone());
+        let txname = match prev_name {
+            Some(prev) if self.rng.chance(1, 4) => {
+                self.tag("tx-names-differ-in-letter-case-only");
+                prev.chars().map(|c| if c.is_ascii_lowercase() { c.to_ascii_uppercase() } else { c.to_ascii_lowercase() }).collect()
+            }
+            _ => self.name("tx"),
+        };
+        self.cur_tx = TxDef { name: txname, ..Default::default() };
         self.int_locals.clear();
         self.val_locals.clear();
         if self.rng.chance(1, 3) {
@@ -1161,7 +1171,17 @@ impl<'r> Builder<'r> {
     /// redeemer on it, and 1..4 outputs each carrying a datum.
     fn gen_datum_tx(&mut self) {
         self.cur = TxMeta::default();
-        self.cur_tx = TxDef { name: self.name("tx"), ..Default::default() };
+        // now and then a tx is named like the previous one except for the case of its letters (tx names are
+        // case-sensitive keys of the interface)
+        let prev_name: Option<String> = self.g.prog.txs.last().map(|t| t.name.clone());
+        let txname = match prev_name {
+            Some(prev) if self.rng.chance(1, 4) => {
+                self.tag("tx-names-differ-in-letter-case-only");
+                prev.chars().map(|c| if c.is_ascii_lowercase() { c.to_ascii_uppercase() } else { c.to_ascii_lowercase() }).collect()
+            }
+            _ => self.name("tx"),
+        };
+        self.cur_tx = TxDef { name: txname, ..Default::default() };
         self.int_locals.clear();
         self.val_locals.clear();
         let owner = self.party();
